@@ -61,6 +61,14 @@ def campaign(c):
                 else: parts.append(r.choice(['(', ')', ';', ',', ' ', '  ', '\t', '=', '/']))
             lines.append((r.choice(['', ' ', '']) ).join(parts))
         check(c, lines + [';'], 'rand')
+    # dotted quads: every 1-3 digit octet spelling (and some longer ones) in each of the four positions
+    octs = ['%d' % i for i in range(0, 300)] + ['0%d' % i for i in range(0, 100, 7)] + ['00%d' % i for i in range(10)] + ['1000', '2550', '0255', '']
+    if c.quick: octs = octs[::3] + ['199', '200', '201', '249', '250', '255', '256', '25', '26', '2']
+    for o in octs:
+        for pos in range(4):
+            q = ['1', '22', '133', '4']; q[pos] = o
+            check(c, ['x = %s;' % '.'.join(q), ';'], 'quad')
+        check(c, ['%s.%s.%s.%s %s.9.9.9:%s' % (o, o, o, o, o, o), ';'], 'quad')
     # directed: strings carried across lines
     for a, b in [('f("a"', '"b");'), ('"a"', '"b" "c" ;'), ('x("|41 4"', '"2|");'), ('f(""', ');'), ('"only"', ''), ('f("a" // c', '"b")')]:
         check(c, [a, b, ';'], 'carry')
